@@ -40,9 +40,19 @@ type User struct {
 	Age     int32
 	Kind    Kind
 	Active  bool
+	// NULL in the database, zero in Go: a filter on 0 means IS NULL
+	Boss int64 `sql:",implicitnull"`
+	// a DATETIME(6): several rows fall into the same second
+	Seen time.Time
 }
 
-var userCols = []string{"digest", "id", "org_id", "name", "nick", "age", "kind", "active"}
+// seenAt: four instants, three of them within one second.
+func seenAt(k int) time.Time {
+	base := time.Date(2024, 1, 2, 3, 4, 5, 0, time.UTC)
+	return base.Add([]time.Duration{0, 250 * time.Millisecond, 500 * time.Millisecond, time.Second}[k])
+}
+
+var userCols = []string{"digest", "id", "org_id", "name", "nick", "age", "kind", "active", "boss", "seen"}
 
 func newSchema() *sqlgen.Schema {
 	s := sqlgen.NewSchema()
@@ -70,6 +80,8 @@ func seedUsers(c *runner.Ctx, d *mdb, n int) {
 			"digest": []byte([]string{"d1", "d2"}[c.Choose(2, "digest")]),
 			"id":     int64(i + 1), "org_id": int64(1 + c.Choose(2, "org")), "name": []string{"ann", "bob", "a", "ab"}[c.Choose(4, "name")],
 			"nick": nick, "age": int64(20 + 10*c.Choose(2, "age")), "kind": []string{"k1", "k2"}[c.Choose(2, "kind")], "active": c.Choose(2, "active") == 1,
+			"boss": []driver.Value{nil, nil, int64(5), int64(7)}[c.Choose(4, "boss")],
+			"seen": seenAt(c.Choose(4, "seen")),
 		})
 		t.autoInc = int64(i + 1)
 	}
@@ -82,7 +94,7 @@ func genFilter(c *runner.Ctx, maxCols int) (sqlgen.Filter, string) {
 	f := sqlgen.Filter{}
 	var desc []string
 	n := c.Choose(maxCols+1, "filter-cols")
-	cols := []string{"id", "org_id", "name", "nick", "age", "kind", "active", "digest"}
+	cols := []string{"id", "org_id", "name", "nick", "age", "kind", "active", "digest", "boss", "seen"}
 	for i := 0; i < n; i++ {
 		col := cols[c.Choose(len(cols), "filter-col")]
 		if _, dup := f[col]; dup {
@@ -122,6 +134,12 @@ func genFilter(c *runner.Ctx, maxCols int) (sqlgen.Filter, string) {
 			v = []interface{}{x, &x, x}[rep]
 		case "digest":
 			v = []byte([]string{"d1", "d2"}[c.Choose(2, "filter-digest")])
+		case "seen":
+			x := seenAt(c.Choose(4, "filter-seen"))
+			v = []interface{}{x, &x, x}[rep]
+		case "boss":
+			x := []int64{0, 0, 5, 7}[c.Choose(4, "filter-boss")]
+			v = []interface{}{x, int(x), int32(x)}[rep]
 		}
 		f[col] = v
 		desc = append(desc, fmt.Sprintf("%s=%s", col, repr(v)))
@@ -152,7 +170,7 @@ func userString(u *User) string {
 	if u.Nick != nil {
 		nick = *u.Nick
 	}
-	return fmt.Sprintf("{%d org=%d %s nick=%s age=%d %s %v %s}", u.Id, u.OrgId, u.Name, nick, u.Age, u.Kind, u.Active, u.Digest)
+	return fmt.Sprintf("{%d org=%d %s nick=%s age=%d %s %v %s boss=%d seen=%s}", u.Id, u.OrgId, u.Name, nick, u.Age, u.Kind, u.Active, u.Digest, u.Boss, u.Seen.Format("05.000"))
 }
 
 func usersString(us []*User) string {
